@@ -119,7 +119,9 @@ def run(ctx):
 def replay(ctx, data):
     for c in data["replay"]["cases"]:
         o = nl.run_lit_job({"cases": [{"id": 0, "src": c["src"]}]})[0]
-        print(f"{c['v']} at {c['ty']} ({c['form']}): code -> {o}; spec -> {c['spec']}")
+        rep = None if o["rk"] == "none" else (nv.to_signed(o["rv"]) if o["rk"] == "int" else o["rv"])
+        print(f"{c['v']} at {c['ty']} ({c['form']}): code -> {o['st']} {o['err']} returns {o['ret']}, result() reports "
+              f"result_{o['rk']} {rep}; spec -> {c['spec']}")
 
 
 def selftest(ctx):
